@@ -299,7 +299,8 @@ class Textgrid:
 
         maxTimestamp = self.maxTimestamp
         if doShrink is True:
-            maxTimestamp -= diff
+            # Same arithmetic as in the tiers, so that they share this span
+            maxTimestamp = max(start, maxTimestamp - diff)
 
         newTG = Textgrid(self.minTimestamp, self.maxTimestamp)
         for tier in self.tiers:
